@@ -58,7 +58,7 @@ def c15(tier):
 
 def c20(tier):
     runs = []
-    top = 5 if tier == "quick" else 7
+    top = 6 if tier == "quick" else 8
     for n in range(0, top + 1):
         runs.append(dict(harness="verifHarness_C20", args=[n], reach=["C20/ok"]))
     nb = 2 if tier == "quick" else 3
@@ -380,7 +380,7 @@ PROPS = {
                         "thorough": "<= 3 present children; families with <= 2 deviations"},
                 outside="byte-for-byte identity of pos.go / walk_internal.go with the generators' output and agreement of the reflective interpreter poslang.EvalPos are not decided by this technique (DESIGN.md section 8)"),
     "C20": dict(level="model_checking", runs=cutpanics(c20),
-                bounds={"quick": "all buffers of <= 5 bytes x all pairs 0<=pos<=end<=len; error prefix for all inputs of <= 2 bytes on every Parse* entry",
-                        "thorough": "all buffers of <= 7 bytes x all pairs; error prefix for all inputs of <= 3 bytes"},
+                bounds={"quick": "all buffers of <= 6 bytes x all pairs 0<=pos<=end<=len; error prefix for all inputs of <= 2 bytes on every Parse* entry",
+                        "thorough": "all buffers of <= 8 bytes x all pairs; error prefix for all inputs of <= 3 bytes"},
                 outside="longer buffers"),
 }
